@@ -210,6 +210,9 @@ class Tr(object):
     def closure1(self, c, env):
         if c[0] != "closure" or len(c[1]) != 1:
             raise Unsupported("expected a one-parameter closure")
+        if isinstance(c[1][0], tuple):
+            pt, env2 = self.pat(c[1][0], env, None)
+            return "(fun '%s => %s)" % (pt, self.pure(c[2], env2))
         x = cn(c[1][0])
         env2 = self.bind(env, c[1][0], B("val", x))
         return "(fun %s => %s)" % (x, self.pure(c[2], env2))
@@ -293,6 +296,14 @@ class Tr(object):
             a, b = self.pure(e[2], env), self.pure(e[3], env)
             if op in ("==", "!="):
                 et = self.is_enum_expr(e[2], env) or self.is_enum_expr(e[3], env)
+                def is_bytes(x):
+                    while x[0] == "unary":
+                        x = x[2]
+                    return (x[0] == "path" and len(x[1]) == 1 and x[1][0] in self.cfg.get("bytes_vars", [])) or \
+                        (x[0] == "field" and x[2] in ("0", "1") and self.cfg.get("bytes_vars") is not None)
+                if is_bytes(e[2]) or is_bytes(e[3]):
+                    t = "(beq_bytes %s %s)" % (a, b)
+                    return t if op == "==" else "(negb %s)" % t
                 if any(x[0] == "path" and x[1][0] == "Error" for x in (e[2], e[3])):
                     t = "(err_eqb %s %s)" % (a, b)
                     return t if op == "==" else "(negb %s)" % t
@@ -519,6 +530,10 @@ class Tr(object):
             return "(N.%s %s %s)" % (name, self.pure(recv, env), self.pure(args[0], env))
         if name == "saturating_sub" and len(args) == 1:
             return "(N.sub %s %s)" % (self.pure(recv, env), self.pure(args[0], env))
+        if name == "next" and not args:
+            return "(first_of_list %s)" % self.iter_base(recv, env)
+        if name in ("filter", "map", "chain") and len(args) == 1 and self.cfg.get("list_result"):
+            return self.iter_base(e, env)
         if name == "skip" and len(args) == 1:
             return "(drop %s %s)" % (self.pure(args[0], env), self.pure(recv, env))
         if name == "get" and len(args) == 1:
@@ -579,6 +594,12 @@ class Tr(object):
             return " ".join(b.fields[f] for f in b.fields)
         return self.pure(recv, env)
 
+    def iter_or_pure(self, e, env):
+        try:
+            return self.iter_base(e, env)
+        except Unsupported:
+            return self.pure(e, env)
+
     def iter_base(self, recv, env):
         """x.iter() / x.iter().take(n) / x.bytes() as a list"""
         if recv[0] == "mcall" and recv[2] == "take" and len(recv[3]) == 1:
@@ -591,6 +612,14 @@ class Tr(object):
             return "(map %s %s)" % (self.closure1(recv[3][0], env), self.iter_base(recv[1], env))
         if recv[0] == "mcall" and recv[2] == "zip" and len(recv[3]) == 1:
             return "(combine %s %s)" % (self.iter_base(recv[1], env), self.iter_base(recv[3][0], env))
+        if recv[0] == "mcall" and recv[2] == "filter" and len(recv[3]) == 1:
+            return "(filter %s %s)" % (self.closure1(recv[3][0], env), self.iter_base(recv[1], env))
+        if recv[0] == "mcall" and recv[2] == "chain" and len(recv[3]) == 1:
+            return "(%s ++ %s)" % (self.iter_base(recv[1], env), self.iter_or_pure(recv[3][0], env))
+        if recv[0] == "call" and recv[1][0] == "path" and "::".join(recv[1][1]) in self.cfg.get("list_functions", []):
+            return self.pure(recv, env)
+        if recv[0] == "path" and len(recv[1]) == 1 and recv[1][0] in env and env[recv[1][0]].ty == "list":
+            return self.pure(recv, env)
         if recv[0] == "mcall" and recv[2] == "filter_map" and len(recv[3]) == 1:
             return "(opt_filter_map %s %s)" % (self.closure1(recv[3][0], env), self.iter_base(recv[1], env))
         if recv[0] == "call" and recv[1][0] == "path" and len(recv[1][1]) == 1 and recv[1][1][0] in env and env[recv[1][1][0]].ty == "listfn":
@@ -1717,6 +1746,28 @@ FLOWFUNCS = [
                  ("headers", "val", "list header", None), ("phase", "mutval", "phase", "Phase"), ("w", "writer", "", None)],
          methods={"is_body": "is_body"}, loops={1: dict(fuel="3", panic="model: try_write_prelude out of fuel")},
          rust_ret="Result<(), Error>"),
+    # src/client/amended.rs: the effective header list (caller-added headers first, then the original ones that are not unset) and the
+    # accessors built on it; the three containers are lists (ArrayVec / HeaderMap iteration order), names compare as byte strings
+    dict(coq="gen_am_headers", file="src/client/amended.rs", impl=r"impl<Body>\s+AmendedRequest<Body>", rust="headers", kind="plain",
+         register=True, register_as="am_headers", list_result=True, bytes_vars=["x", "k", "key"],
+         subst=[(r"self\s*\.request\s*\.headers\(\)\s*\.iter\(\)", "original.iter()"), (r"self\.unset", "unset"), (r"self\.headers", "added")],
+         params=[("added", "val", "list header", "list"), ("unset", "val", "list bytes", "list"), ("original", "val", "list header", "list")],
+         rust_ret="impl Iterator"),
+    dict(coq="gen_am_headers_get_all", file="src/client/amended.rs", impl=r"impl<Body>\s+AmendedRequest<Body>", rust="headers_get_all", kind="plain",
+         register=True, register_as="am_headers_get_all", list_result=True, bytes_vars=["x", "k", "key"], list_functions=["am_headers"],
+         subst=[(r"self\.headers\(\)", "am_headers(added, unset, original)")],
+         params=[("added", "val", "list header", "list"), ("unset", "val", "list bytes", "list"), ("original", "val", "list header", "list"), ("key", "val", "bytes", None)],
+         rust_ret="impl Iterator"),
+    dict(coq="gen_am_headers_get", file="src/client/amended.rs", impl=r"impl<Body>\s+AmendedRequest<Body>", rust="headers_get", kind="plain",
+         list_functions=["am_headers_get_all"],
+         subst=[(r"self\.headers_get_all\(key\)", "am_headers_get_all(added, unset, original, key)")],
+         params=[("added", "val", "list header", "list"), ("unset", "val", "list bytes", "list"), ("original", "val", "list header", "list"), ("key", "val", "bytes", None)],
+         rust_ret="Option"),
+    dict(coq="gen_am_headers_len", file="src/client/amended.rs", impl=r"impl<Body>\s+AmendedRequest<Body>", rust="headers_len", kind="plain",
+         list_functions=["am_headers"],
+         subst=[(r"self\.headers\(\)", "am_headers(added, unset, original)")],
+         params=[("added", "val", "list header", "list"), ("unset", "val", "list bytes", "list"), ("original", "val", "list header", "list")],
+         rust_ret="usize"),
     # src/client/amended.rs: the request analysis (what makes a request invalid, and the framing of its body); the two header accessors
     # are function parameters, version and method are values
     dict(coq="gen_analyze", file="src/client/amended.rs", impl=r"impl<Body>\s+AmendedRequest<Body>", rust="analyze",
@@ -1749,7 +1800,7 @@ def translate_custom(text, cfg, known_all=None):
     if pp.peek()[0] != "eof":
         raise Unsupported("trailing tokens")
     ps = [(n, k, t) for n, k, t, _ in cfg["params"]]
-    info = FnInfo(cfg["coq"], ps, "res", rust_ret=cfg["rust_ret"])
+    info = FnInfo(cfg["coq"], ps, cfg.get("kind", "res"), rust_ret=cfg["rust_ret"])
     known = dict(((None, n), FnInfo(n, [("r", "val", "")], "plain")) for n in cfg.get("known", []))
     for rust, coq, arity in cfg.get("known_res", []):
         known[(None, rust)] = FnInfo(coq, [("a%d" % i, "val", "") for i in range(arity)], "res")
@@ -1856,7 +1907,7 @@ def _generate(repo, base, force):
             chunks.append("(* %s :: fn %s (fields of self.inner as parameters) *)\n%s\n" % (cfg["file"], cfg["rust"], code))
             done.append(cfg["coq"])
             if cfg.get("register"):
-                known[(None, cfg["rust"])] = FnInfo(cfg["coq"], [(n, k, t) for n, k, t, _ in cfg["params"]], "res", rust_ret=cfg["rust_ret"])
+                known[(None, cfg.get("register_as", cfg["rust"]))] = FnInfo(cfg["coq"], [(n, k, t) for n, k, t, _ in cfg["params"]], cfg.get("kind", "res"), rust_ret=cfg["rust_ret"])
             newbase[cfg["coq"]] = {"code": code, "params": [], "kind": "flags", "rust_ret": "", "calls": []}
         except (Unsupported, Impure, OSError, ValueError, KeyError, IndexError, AttributeError, TypeError, RecursionError) as ex:
             failed[cfg["coq"]] = "%s: %s" % (type(ex).__name__, ex)
